@@ -25,12 +25,12 @@ RULE = (
     "drops the connection, and what the application sends from inside on_state_change(ACTIVE) never overtakes the endpoint's own Logon (a Logout as the first frame of a connection produces no callback other than the disconnect); refused sends raise FIXConnectionError, write nothing, consume no number, leave no journal row; wrong "
     "BeginString frames have no effect; CompID / MsgSeqNum defects never reach on_message, never advance next_num_in, leave the "
     "endpoint disconnected (with a Logout carrying Text when the CompIDs were right); a disconnect is reported exactly once and "
-    "nothing is emitted or called back afterwards; the same three clauses under interleavings (the controlled scheduler of C14: the peer's EOF, a reset while senders wait in drain, or the application's disconnect() arrive while other tasks are suspended in drain or in a hook). Non-trivial = defect != none or pre-logon state; the product is enumerated completely."
+    "nothing is emitted or called back afterwards; an acceptor whose first frame is a Logon it cannot answer as it stands (EncryptMethod and / or HeartBtInt absent) x one more frame of every class numbered at / above the expectation x send attempts: unless it answered with its own Logon, nothing is delivered, acted upon or counted and sends other than Logon / Logout are refused; the same three clauses under interleavings (the controlled scheduler of C14: the peer's EOF, a reset while senders wait in drain, or the application's disconnect() arrive while other tasks are suspended in drain or in a hook). Non-trivial = defect != none or pre-logon state; the product is enumerated completely."
 )
 ASSUMPTIONS = [
     "FREE: whether a Logout is written for wrong/missing CompIDs; too-low numbers while a resend is awaited, on SequenceReset or with PossDupFlag=Y; "
     "connection state after a discarded wrong-BeginString frame; a Logout or a Logon received pre-logon by an initiator that has not sent its own",
-    "post-disconnect observation window is shorter than the initiator's reconnect delay (1.5 heartbeat intervals)",
+    "post-disconnect observation: 5 s, then for initiators 3.3 heartbeat intervals during which every reconnect attempt is refused by the network (a successful reconnect starts a new connection and is not 'after the disconnect')",
 ]
 STATES = ["acc-connected", "init-connected", "init-logon-sent", "acc-active", "init-active", "acc-awaiting", "init-awaiting",
           # the same pre-logon states on the SECOND connection of one object (after a complete earlier session in which
@@ -199,14 +199,17 @@ def snapshot(b):
     }
 
 
-def try_sends(acc, b, state_label, case, bad):
-    """Send attempts of every message class in the endpoint's current state."""
+def try_sends(acc, b, state_label, case, bad, limbo=False):
+    """Send attempts of every message class in the endpoint's current state (limbo: connected, a Logon was received but this
+    endpoint has not answered it with its own - no Logon exchange has completed)."""
     ep = b.ep
     for mt in SENDS:
         st0 = ep.connection_state
         disconnected = st0 <= ConnectionState.DISCONNECTED_BROKEN_CONN
         if disconnected:
             must_refuse = True
+        elif limbo:
+            must_refuse = mt not in ("A", "5")
         elif st0 == ConnectionState.NETWORK_CONN_ESTABLISHED:
             must_refuse = mt not in ("A", "5")
         elif st0 == ConnectionState.LOGON_INITIAL_SENT:
@@ -273,6 +276,19 @@ def after_disconnect(acc, b, extra, case, bad):
         bad("post-disconnect/callback", f"callbacks after the disconnect: {new_ev}", case)
     if s1["E"] != s0["E"] or s1["N"] != s0["N"]:
         bad("post-disconnect/counters", f"counters moved after the disconnect: in {s0['E']}->{s1['E']} out {s0['N']}->{s1['N']}", case)
+    if b.role == "initiator" and getattr(ep, "heartbeat_period", None):
+        # a longer window: the client's automatic reconnect attempts come due and FAIL (the network refuses them). No
+        # connection is ever established again, so the one disconnect stays reported once and nothing else is called back
+        b.w.advance(float(ep.heartbeat_period) * 3.3 + 3)
+        s2 = snapshot(b)
+        ev2 = [e[0] for e in ep.events[s1["events"]:]]
+        if s2["disc"] != s1["disc"] or "disconnect" in ev2:
+            bad("post-disconnect/disconnect-reported-again-on-failed-reconnect", f"on_disconnect count {s1['disc']} -> {s2['disc']} while reconnect attempts were refused; callbacks {ev2}", case)
+        elif [e for e in ev2 if e != "state"]:
+            bad("post-disconnect/callback-on-failed-reconnect", f"callbacks while reconnect attempts were refused: {ev2}", case)
+        if s2["written"] != s1["written"] or s2["msgs"] != s1["msgs"] or s2["E"] != s1["E"] or s2["N"] != s1["N"]:
+            bad("post-disconnect/activity-on-failed-reconnect", f"frames/messages/counters changed while reconnect attempts were refused: {s1} -> {s2}", case)
+        acc.klass("failed-reconnect-window")
 
 
 def one_case(acc, state, cls, defect, extra=(), uid=1):
@@ -379,6 +395,99 @@ def one_case(acc, state, cls, defect, extra=(), uid=1):
         b.close()
 
 
+LOGON_BODY = {"no-108": [(98, 0)], "no-98": [(108, 30)], "no-98-108": [], "no-98-108-other": [(141, "Y"), (553, "user")]}
+
+
+def logon_body_case(acc, state, lb, cls, at, uid=1):
+    """An acceptor whose FIRST frame is a Logon that cannot be answered as it stands (EncryptMethod / HeartBtInt absent), then
+    one more frame of every class numbered at / above the expectation, then send attempts. Three outcomes of the Logon are
+    legitimate: the endpoint drops the connection, or it answers with its own Logon (exchange completed, everything after is
+    judged elsewhere), or it stays connected without answering - and then no Logon exchange has completed: nothing may be
+    delivered, acted upon or counted, and sends other than Logon / Logout must be refused."""
+    case = {"logon_body": lb, "state": state, "cls": cls, "at": at}
+    try:
+        b = make_bench(state)
+    except SetupViolation as e:
+        acc.violation("C11:setup/" + state, f"{e} | state={state}", case)
+        acc.case(None, cls="setup-failed")
+        return
+
+    def bad(sig, detail, c=None):
+        acc.violation("C11:" + sig, detail + f" | state={state} logon={lb} then class={cls} at E+{at}", c or case)
+
+    try:
+        ep = b.ep
+        if ep.connection_state.name != "NETWORK_CONN_ESTABLISHED":
+            bad("setup/state-not-reached", f"clean traffic led to {ep.connection_state.name}")
+            return
+        E = ep._session.next_num_in
+        b.mark()
+        b.feed(ref_encode("A", [(49, b.peer), (56, b.me), (34, E), (52, "20230101-00:00:00.000")] + LOGON_BODY[lb]))
+        wr = b.written()
+        evs = [e[0] for e in b.events()]
+        mts = [ref_get(p, 35) for _, p in wr]
+        if "A" in mts:
+            outcome = "answered"
+        elif b.disconnected():
+            outcome = "dropped"
+            if evs.count("disconnect") != 1:
+                bad(f"disconnect-reported-{evs.count('disconnect')}-times/logon-{lb}", f"callbacks: {evs}")
+        else:
+            outcome = "limbo"
+        if outcome != "answered":
+            if "logon" in evs:
+                bad(f"on_logon/unanswered-logon-{lb}", f"callbacks {evs} although this endpoint never sent its Logon")
+            if ep._session.next_num_in != E:
+                bad(f"inbound-counter-advanced/unanswered-logon-{lb}", f"next_num_in {E} -> {ep._session.next_num_in}")
+            acted = [m for m in mts if m not in ("5",)]
+            if acted:
+                bad(f"acted-upon/unanswered-logon-{lb}", f"endpoint wrote {acted}")
+        acc.case(("logon-body", state, lb, cls, at), cls=[f"state={state}", f"logon-body={lb}", f"logon-outcome={outcome}"],
+                 sample={"state": state, "logon": lb, "outcome": outcome, "written": mts} if len(acc.samples) < 3 else None)
+        if outcome == "answered":
+            return
+        mt, fields = body_for(cls, uid, E)
+        follow = ref_encode(mt, [(49, b.peer), (56, b.me), (34, E + at), (52, "20230101-00:00:01.000")] + fields)
+        if outcome == "limbo":
+            s0 = snapshot(b)
+            b.mark()
+            b.feed(follow)
+            s1 = snapshot(b)
+            wr2 = [ref_get(p, 35) for _, p in b.written()]
+            evs2 = [e[0] for e in b.events()]
+            if cls == "A":
+                pass  # a second, complete Logon: FREE (the exchange may complete now)
+            else:
+                if s1["msgs"] != s0["msgs"]:
+                    bad(f"delivered/no-logon-exchange/{cls}", f"on_message was called for a {mt} although this endpoint never answered the Logon (state {s0['state'].name})")
+                if "logon" in evs2:
+                    bad(f"on_logon/no-logon-exchange/{cls}", f"callbacks {evs2}")
+                if s1["E"] != s0["E"]:
+                    bad(f"inbound-counter-advanced/no-logon-exchange/{cls}", f"next_num_in {s0['E']} -> {s1['E']} (state {s0['state'].name})")
+                acted = [m for m in wr2 if m != "5"]
+                if acted:
+                    bad(f"acted-upon/no-logon-exchange/{cls}", f"endpoint answered a {mt} with {acted} although no Logon exchange has completed")
+                if evs2.count("disconnect") > 1:
+                    bad(f"disconnect-reported-{evs2.count('disconnect')}-times/no-logon-exchange", f"callbacks: {evs2}")
+            if not b.disconnected() and "A" not in wr2:
+                try_sends(acc, b, state, case, bad, limbo=True)
+        if b.disconnected():
+            try_sends(acc, b, state, case, bad)
+            after_disconnect(acc, b, [follow, ref_msg("1", b.peer, b.me, E + 1, [(112, "X")]), "EOF"], case, bad)
+    finally:
+        b.close()
+
+
+def logon_body(acc):
+    uid = 0
+    for state in ("acc-connected", "acc2-connected"):
+        for lb in LOGON_BODY:
+            for cls in CLASSES:
+                for at in (0, 1):
+                    uid += 1
+                    logon_body_case(acc, state, lb, cls, at, uid=uid)
+
+
 def product(acc, state):
     uid = 0
     for cls in CLASSES:
@@ -459,7 +568,9 @@ def EXHAUSTIVE(tier):
     return True
 
 
-INTERLEAVED = [("I:logon",), ("I:logon", "I:logout"), ("A", "X:drop"), ("R:resend", "X:drop", "A"), ("R:resend", "X:logout", "A"), ("A", "H")]
+INTERLEAVED = [("I:logon",), ("I:logon", "I:logout"), ("A", "X:drop"), ("R:resend", "X:drop", "A"), ("R:resend", "X:logout", "A"), ("A", "H"),
+               # the connection ends while the endpoint's own reply (Logon answer, ResendRequest for a gap, Heartbeat answer) waits in drain()
+               ("R:logon", "X:drop"), ("R:logon", "X:logout"), ("R:gap", "X:drop"), ("R:gap", "X:logout"), ("R:testreq", "X:drop")]
 
 
 def interleaved_one(acc, tasks, schedule):
@@ -468,7 +579,7 @@ def interleaved_one(acc, tasks, schedule):
     reported exactly once and nothing is written or called back behind it."""
     from checks import c14
 
-    start = "connected" if any(t.startswith("I:") for t in tasks) else "active"
+    start = "connected" if ("R:logon" in tasks or any(t.startswith("I:") for t in tasks)) else "active"
     sch = c14.Sched(tasks, start)
     case = {"interleaved": list(tasks), "schedule": [list(c) for c in schedule]}
     try:
@@ -502,7 +613,7 @@ def interleaved(acc, depth):
 
     for tasks in INTERLEAVED:
         def rec(schedule):
-            start = "connected" if any(t.startswith("I:") for t in tasks) else "active"
+            start = "connected" if ("R:logon" in tasks or any(t.startswith("I:") for t in tasks)) else "active"
             sch = c14.Sched(tasks, start)
             try:
                 if start == "active":
@@ -528,7 +639,7 @@ def interleaved(acc, depth):
 
 
 def plan(tier, seed):
-    jobs = [("product", {"state": s}) for s in STATES] + [("disconnected_states", {})] + [("interleaved", {"depth": 5 if tier == "quick" else 7})]
+    jobs = [("product", {"state": s}) for s in STATES] + [("disconnected_states", {})] + [("logon_body", {})] + [("interleaved", {"depth": 5 if tier == "quick" else 7})]
     n, k = (150, 4) if tier == "quick" else (6000, 8)
     jobs += [("hyp_shard", {"n": n, "seed": derive_seed(seed, PROPERTY, i)}) for i in range(k)]
     return jobs
@@ -540,5 +651,8 @@ def replay(acc, case):
         return
     if "disconnected" in case:
         disconnected_states(acc)
+        return
+    if "logon_body" in case:
+        logon_body_case(acc, case["state"], case["logon_body"], case["cls"], case["at"])
         return
     one_case(acc, case["state"], case["cls"], case["defect"], extra=[e if not isinstance(e, str) or e == "EOF" else e for e in case.get("extra", [])])
